@@ -101,7 +101,9 @@ func TestC10(t *testing.T) {
 			fcs = append(fcs, fcase{w, "size-4", n, "rand", 4})
 		}
 	}
-	fcs = append(fcs, fcase{3, "rabin-16-32-64", 3000, "rand", 32}, fcase{2, "rabin-32-64-128", 5000, "period8", 64}, fcase{2, "size-1", 40, "zero", 1}, fcase{3, "buzhash", 300000, "rand", 131072}, fcase{2, "", 600000, "rand", 262144}, fcase{3, "", 0, "rand", 262144}, fcase{174, "", 77, "rand", 262144}, fcase{2, "", 262144, "zero", 262144}, fcase{2, "", 262145, "rand", 262144})
+	fcs = append(fcs, fcase{3, "rabin-16-32-64", 3000, "rand", 32}, fcase{2, "rabin-32-64-128", 5000, "period8", 64}, fcase{2, "size-1", 40, "zero", 1}, fcase{3, "buzhash", 300000, "rand", 131072}, fcase{2, "", 600000, "rand", 262144}, fcase{3, "", 0, "rand", 262144}, fcase{174, "", 77, "rand", 262144}, fcase{2, "", 262144, "zero", 262144}, fcase{2, "", 262145, "rand", 262144},
+		// chunkers given by their average size only; contents shorter than that average (the minimum is a third of it)
+		fcase{3, "rabin-4096", 3000, "rand", 1365}, fcase{2, "rabin-1024", 900, "rand", 341}, fcase{2, "rabin-2048", 2047, "rand", 682}, fcase{3, "rabin-512", 400, "rand", 170}, fcase{2, "size-4096", 3000, "rand", 4096})
 	if !r.Quick() {
 		fcs = append(fcs, fcase{2, "rabin", 700000, "rand", 262144}, fcase{4, "size-7", 1000, "period3", 7}, fcase{174, "size-1", 30277, "rand", 1})
 	}
@@ -484,6 +486,56 @@ func TestC10(t *testing.T) {
 				}
 			}
 			c.Sig("file-concurrent", true)
+		})
+	}
+	// what was built before must not matter: the same content with different chunk sizes, in different
+	// orders, gives each (content, chunk size) its own fixed result
+	for round := 0; round < r.Pick(6, 40); round++ {
+		round := round
+		r.Case(fmt.Sprintf("build-history/%d", round), map[string]any{"round": round}, func(c *mon.Case) {
+			rr := c.Rand()
+			n := 600 + rr.Intn(900)
+			content := gen.Content(rr, "rand", n)
+			// chunk sizes that give the same number of chunks for this length (and some that do not)
+			var sizes []int
+			for _, parts := range []int{2, 3, 3, 3, 4} {
+				lo, hi := (n+parts-1)/parts, n/(parts-1)-1
+				if parts == 1 || hi < lo {
+					continue
+				}
+				sizes = append(sizes, lo+rr.Intn(hi-lo+1))
+			}
+			one := func(k int) buildResult {
+				var res buildResult
+				st := store.New()
+				c.Guard("BuildUnixFSFile", func() {
+					withWidth(4, func() {
+						l, sz, err := builder.BuildUnixFSFile(bytes.NewReader(content), fmt.Sprintf("size-%d", k), st.LinkSystem(false))
+						res.root, res.size = linkCid(l), sz
+						if err != nil {
+							res.err = err.Error()
+						}
+					})
+				})
+				return res
+			}
+			first := map[int]buildResult{}
+			for pass := 0; pass < 4; pass++ {
+				order := append([]int(nil), sizes...)
+				mon.Shuffle(rr, order)
+				for _, k := range order {
+					res := one(k)
+					c.Count("builds_compared", 1)
+					if prev, ok := first[k]; !ok {
+						first[k] = res
+					} else if prev.key() != res.key() {
+						c.Violation("C10|file|history", "%d bytes with size-%d built after other builds of the same content with other chunk sizes gives (%s, %d, %q); earlier in this process it gave (%s, %d)", n, k, res.root, res.size, res.err, prev.root, prev.size)
+						return
+					}
+				}
+			}
+			c.Result(fmt.Sprint(first))
+			c.Sig("build-history", len(sizes) >= 2)
 		})
 	}
 	// quick-builder nodes are values: one node put under several names, in one directory or in two,
